@@ -408,7 +408,9 @@ def oracle(case, res):
                 n = sum(1 for l in ev if l.startswith("run-started %s " % e["name"]))
                 if n != 1:
                     out.append(("service-started-%d-times" % n, "service %s was started %d times" % (e["name"], n)))
-                recent = [l for l in ev[max(0, k - 40 * max(1, len(svc))):k] if l == "beat %s" % e["name"]]
+                # alive at the moment of the SIGINT: a heartbeat shortly before it, or any sign of life after it
+                # (with no delay the SIGINT may overtake the very first heartbeat)
+                recent = [l for l in ev[max(0, k - 40 * max(1, len(svc))):] if l in ("beat %s" % e["name"], "cancelled %s" % e["name"]) or l.startswith("run-started %s " % e["name"])]
                 if n == 1 and not recent:
                     out.append(("service-not-alive", "service %s was not running any more when the daemon was stopped" % e["name"]))
                 if not e["cls"].endswith("Thr") and n == 1 and ("cancelled %s" % e["name"]) not in ev:
